@@ -290,7 +290,9 @@ class RefOpset:
             r = np.add(r, y)
         return RT(r)
 
-    def Clip(self, a, lo=None, hi=None):
+    def Clip(self, a, lo=None, hi=None, min=None, max=None):
+        lo = min if min is not None else lo
+        hi = max if max is not None else hi
         x, l, h = self._p("Clip", a, lo, hi)
         r = x
         if l is not None:
